@@ -156,6 +156,11 @@ def c04_inputs(rng, quick):
         out += [str(n), "-" + str(n), str(n) + ".0", str(n) + "e0"]
     for k in range(0, 20):
         out += [str(10 ** k), "-" + str(10 ** k), str(10 ** k - 1) if k else "0"]
+    # zero mantissas of every length (the value is zero whatever the number of fraction digits), and the same spellings
+    # with one significant digit in front / behind
+    for n in (list(range(1, 70)) + list(range(70, 420, 7 if quick else 1))):
+        z = "0" * n
+        out += ["0." + z, "-0." + z, "0." + z + "1", "1." + z, "0." + z + "e1", "0." + z + "E-5", "10." + z + "1"]
     # zeros written with many digits / huge exponents
     out += ["0e999999", "-0e-999999", "0." + "0" * 400, "0." + "0" * 400 + "e500", "-0.0", "0.0e-0", "0" + "." + "0" * 20 + "1e21"]
     # overflow boundary
